@@ -758,7 +758,16 @@ func (e *Env) evalQuant(n *spec.Quant) (SV, error) {
 		if len(c.Args) != 1 {
 			return SV{}, fmt.Errorf("keys() takes one map")
 		}
-		m, err := e.eval(c.Args[0])
+		// keys(old(m)): the keys the map held in the old state
+		menv := e
+		marg := c.Args[0]
+		if oc, ok := marg.(*spec.Call); ok && oc.Fun == "old" && len(oc.Args) == 1 {
+			o := *e
+			o.inOld = true
+			menv = &o
+			marg = oc.Args[0]
+		}
+		m, err := menv.eval(marg)
 		if err != nil {
 			return SV{}, err
 		}
@@ -773,7 +782,7 @@ func (e *Env) evalQuant(n *spec.Quant) (SV, error) {
 		if err != nil {
 			return SV{}, err
 		}
-		rng := vc.mapHas(e.state(), mt, m.T, kv)
+		rng := vc.mapHas(menv.state(), mt, m.T, kv)
 		if n.Forall {
 			return SV{T: Term{fmt.Sprintf("(forall ((%s %s)) %s)", vn, ks, Implies(rng, body).S), SBool}}, nil
 		}
